@@ -2449,6 +2449,13 @@ func RecoverMEntryWALData() {
 		if mEntry == nil {
 			break
 		}
+		// An entry is logged as soon as the segment has received a datapoint, possibly before any of its
+		// datapoints reached the datapoint WAL: then no block of the segment exists after recovery, and
+		// a meta entry without block summary file makes every metrics query of its time range fail.
+		if _, err := os.Stat(mEntry.MSegmentDir + ".mbsu"); os.IsNotExist(err) {
+			log.Warnf("RecoverMEntryWALData : skipping meta entry of %s: no block of it was flushed or recovered", mEntry.MSegmentDir)
+			continue
+		}
 		err = meta.AddMetricsMetaEntry(mEntry)
 		if err != nil {
 			log.Warnf("RecoverMEntryWALData : Failed to AddMetricsMetaEntry  %v", err)
